@@ -1,6 +1,6 @@
 (* C05 — deciding obligations. Statements only, closed by the lemmas proved in Circ/*Proofs.v. *)
 From Coq Require Import ZArith List Bool Permutation.
-From VF Require Import Circ.Moments Circ.Placement Circ.Insert Circ.BatchEdit Circ.History
+From VF Require Import Circ.Moments Circ.MomentCalls Circ.Placement Circ.Insert Circ.BatchEdit Circ.History
   Circ.MomentsProofs Circ.InsertProofs Circ.PlacementProofs Circ.CacheProofs Circ.BatchProofs Circ.OrderProofs Circ.TotalProofs Circ.EquivProofs Circ.HistoryProofs.
 Import ListNotations.
 Open Scope Z_scope.
@@ -10,6 +10,12 @@ Open Scope Z_scope.
 Theorem C05_wf_preserved : forall h, Forall call_wf h -> wf (moms (run empty_circuit h)).
 Proof. exact history_wf. Qed.
 Print Assumptions C05_wf_preserved.
+
+(* D1 on the Moment class itself: every chain of with_operation / with_operations / + /
+   without_operations_touching / Moment(...) calls keeps the operations on pairwise disjoint qubits *)
+Theorem C05_moment_wf_preserved : forall h m, moment_wf m -> Forall mcall_wf h -> moment_wf (mrun m h).
+Proof. exact moment_history_wf. Qed.
+Print Assumptions C05_moment_wf_preserved.
 
 (* D2 no_loss_no_dup: insert with any strategy / index, cached or not: the uids afterwards are a
    permutation of the old ones plus the inserted ones; a failing insert loses and invents nothing *)
